@@ -7,6 +7,7 @@ from engine import AnalysisError
 from engine.srcmodel import walk_shallow, norm
 from engine.util import call_name
 from engine.effects import analyse, fmt_origin, FRESH
+from engine.inline import inlined
 
 PROPERTY = "C14"
 FC = "pyrates/frontend/template/circuit.py"
@@ -115,11 +116,13 @@ def r2_in_place_false_works_on_copy(ctx, rid):
         if "in_place" not in f.params:
             raise AnalysisError(f"{rid}: {q} lost its in_place parameter")
         check_entry(ctx, rid, f, False, protected={f.self_name})
-        an = analyse(eff, f, False)
+        # view with private helpers spliced in: the compiling calls may live in an extracted `_compile...` helper
+        fi = inlined(ctx, f)
+        an = analyse(eff, fi, False)
         if an.variant is not False:
             raise AnalysisError(f"{rid}: {q} re-binds in_place; cannot specialise")
         n_calls = 0
-        for c in walk_shallow(f.node):
+        for c in walk_shallow(fi.node):
             if isinstance(c, ast.Call) and isinstance(c.func, ast.Attribute) and c.func.attr in COMPILE_CALLS:
                 recv = c.func.value
                 if isinstance(recv, ast.Attribute):       # net._ir.clear() etc. are not template calls
@@ -128,24 +131,43 @@ def r2_in_place_false_works_on_copy(ctx, rid):
                 orig = an.origins(recv)
                 if orig and all(o[0] == "F" for o in orig):
                     ctx.ok(rid, f, c, f"`{ast.unparse(recv)}.{c.func.attr}(...)` acts on the deep copy when in_place is false",
-                           {"receiver_origins": sorted(fmt_origin(o) for o in orig)}, label=f"{f.qualname} {c.func.attr} receiver L{n_calls}")
+                           {"receiver_origins": sorted(fmt_origin(o) for o in orig), "inlined_helpers": list(fi.inlined_helpers)},
+                           label=f"{f.qualname} {c.func.attr} receiver L{n_calls}")
                 else:
                     ctx.violation(rid, f, c, f"with in_place=False the compiling call `{ast.unparse(recv)}.{c.func.attr}(...)` acts on "
                                              f"{sorted(fmt_origin(o) for o in orig)} instead of the deep copy of the template",
-                                  {"receiver_origins": sorted(fmt_origin(o) for o in orig)})
+                                  {"receiver_origins": sorted(fmt_origin(o) for o in orig)},
+                                  label=f"{f.qualname} {c.func.attr} receiver L{n_calls}")
         if n_calls < 2:
             raise AnalysisError(f"{rid}: {q}: expected calls of _add_input/apply/clear, found {n_calls}")
-        # the copy is made by deepcopy
-        mk = [st for st in walk_shallow(f.node) if isinstance(st, ast.Assign) and isinstance(st.value, ast.IfExp)
-              and isinstance(st.value.test, ast.Name) and st.value.test.id == "in_place"]
+        # the copy is made by deepcopy: the working template is `<self> if in_place else deepcopy(<self>)` (either arm order)
+        mk = []
+        for st in walk_shallow(fi.node):
+            if isinstance(st, ast.Assign) and isinstance(st.value, ast.IfExp):
+                t = st.value.test
+                neg = isinstance(t, ast.UnaryOp) and isinstance(t.op, ast.Not)
+                t = t.operand if neg else t
+                if isinstance(t, ast.Name) and t.id == "in_place":
+                    mk.append((st, st.value.body if neg else st.value.orelse))
+            elif isinstance(st, ast.If):
+                t = st.test
+                neg = isinstance(t, ast.UnaryOp) and isinstance(t.op, ast.Not)
+                t = t.operand if neg else t
+                if isinstance(t, ast.Name) and t.id == "in_place":
+                    arm = st.body if neg else st.orelse
+                    for x in arm:
+                        if isinstance(x, ast.Assign) and isinstance(x.value, ast.Call):
+                            mk.append((x, x.value))
         if len(mk) != 1:
             raise AnalysisError(f"{rid}: {q}: the `self if in_place else deepcopy(self)` binding was not found")
-        alt = mk[0].value.orelse
+        mst, alt = mk[0]
         if isinstance(alt, ast.Call) and call_name(alt) == "deepcopy" and alt.args and ast.unparse(alt.args[0]) == f.self_name:
-            ctx.ok(rid, f, mk[0], "the working template is deepcopy(self) when in_place is false", nontrivial=False)
+            ctx.ok(rid, f, mst, "the working template is deepcopy(self) when in_place is false", nontrivial=False,
+                   label=f"{f.qualname} working copy")
         else:
-            ctx.violation(rid, f, mk[0], f"with in_place=False the working template is `{ast.unparse(alt)}`, not a deep copy of self "
-                                         f"(a shallow copy shares node/operator templates and edge dictionaries)")
+            ctx.violation(rid, f, mst, f"with in_place=False the working template is `{ast.unparse(alt)}`, not a deep copy of self "
+                                       f"(a shallow copy shares node/operator templates and edge dictionaries)",
+                          label=f"{f.qualname} working copy")
 
 
 COPY_HOOKS = ("__deepcopy__", "__copy__", "__reduce__", "__reduce_ex__", "__getstate__", "__setstate__")
@@ -181,5 +203,5 @@ RULES = [
     ("C14-R1", r1_read_only_entry_points, 25),
     ("C14-R2", r2_in_place_false_works_on_copy, 10),
     ("C14-R3", r3_copy_hooks, 1),
-    ("C14-R4", r4_repeated_run_uses_fresh_positions, 3),
+    ("C14-R4", r4_repeated_run_uses_fresh_positions, 2),
 ]
